@@ -40,6 +40,7 @@ FORMS = {
     "array-init": ("clocked", "c05a{cellno} = Variable[Array[{T}, 2]]([{src}, {src}])\n{o} <<= c05a{cellno}[1]", ""),
     "array-elem-value": ("clocked", "c05e{cellno}[1] @= {src}\n{o} <<= c05e{cellno}[1]", "c05e{cellno} = Variable[Array[{T}, 2]](name='c05e{cellno}')"),
     "array-elem-next": ("clocked2", "c05g{cellno}[0] <<= {src}\n{o} <<= c05g{cellno}[0]", "c05g{cellno} = Signal[Array[{T}, 2]](name='c05g{cellno}')"),
+    "array-init-tuple": ("clocked", "c05b{cellno} = Variable[Array[{T}, 2]](({src}, {src}))\n{o} <<= c05b{cellno}[0]", ""),
     # delayed_init: the initialisation behaves like a signal assignment (value visible one clock later)
     "init-signal-delayed": ("clocked2", "c05d{cellno} = Signal[{T}]({src}, delayed_init=True)\n{o} <<= c05d{cellno}", ""),
 }
@@ -277,6 +278,42 @@ def literal_form_cells(widths):
     return accept, reject, merges
 
 
+def array_whole_cells():
+    """whole-array assignments: same element count and element type, or rejected"""
+    accept, reject = [], []
+    for (ns, ks, ws), (nt, kt, wt) in itertools.product(((2, "Unsigned", 2), (3, "Unsigned", 2), (1, "Unsigned", 2), (2, "Signed", 2), (2, "Unsigned", 3), (2, "BitVector", 2)), ((2, "Unsigned", 2), (3, "Unsigned", 2))):
+        ok = (ns, ks, ws) == (nt, kt, wt)
+        for form, assign in (("array-whole-next", "c05t{cellno} <<= c05s{cellno}"), ("array-whole-attr", "c05t{cellno}.next = c05s{cellno}")):
+            body = f"c05s{{cellno}}[0] <<= {{a}}\n{assign}\n{{o}} <<= c05t{{cellno}}[0]"
+            local = f"c05s{{cellno}} = Signal[Array[{ks}[{ws}], {ns}]](name='c05s{{cellno}}')\nc05t{{cellno}} = Signal[Array[{kt}[{wt}], {nt}]](name='c05t{{cellno}}')"
+            cell = Cell(f"{form}|Array[{ks}[{ws}],{ns}]->Array[{kt}[{wt}],{nt}]", [("a", Ty({"Unsigned": "U", "Signed": "S", "BitVector": "BV"}[ks], ws))], Ty("U", wt), body, lambda P, a: a, local=local, nonlocals=("c05t{cellno}",))
+            (accept if ok else reject).append(("clocked3", cell))
+    return accept, reject
+
+
+def merge3_cells(widths):
+    """merges whose two operands have different types, assigned to a third type: every operand must on its own be
+    assignable to the target (no laundering of Signed<->Unsigned through a BitVector operand of the merge)"""
+    must_reject, free = [], []
+    for w in widths:
+        for ka, kb, kt in itertools.product(("BV", "U", "S"), repeat=3):
+            if ka == kb:
+                continue
+            ta, tb, tt = Ty(ka, w), Ty(kb, w), Ty(kt, w)
+            ca, cb = SP.conv_assign(ta, tt), SP.conv_assign(tb, tt)
+            for form, body, setup in (
+                ("ifexpr-merge3", "{o} <<= {a} if {c} else {b}", ""),
+                ("return-merge3", "{o} <<= c05_pick3({a}, {b}, {c})", "def c05_pick3(x, y, c):\n    if c:\n        return x\n    return y\n"),
+            ):
+                if ca is None or cb is None:
+                    cell = Cell(f"{form}|{ta}|{tb}|{tt}", [("a", ta), ("b", tb), ("c", BIT)], tt, body, lambda P, a, b, c: a, setup=setup)
+                    must_reject.append(("clocked", cell))
+                else:
+                    spec = lambda P, a, b, c, ca=ca, cb=cb: P.ite(c != 0, ca(P, a), cb(P, b))
+                    free.append(("clocked", Cell(f"{form}|{ta}|{tb}|{tt}", [("a", ta), ("b", tb), ("c", BIT)], tt, body, spec, setup=setup, range_check=tt.kind != "BV")))
+    return must_reject, free
+
+
 def run(tier: str) -> int:
     rep = Reporter("C05", tier, "translation_validation")
     wd = Workdir()
@@ -289,10 +326,13 @@ def run(tier: str) -> int:
         a3, r3 = part_cells([2, 3])
         a4, r4 = view_cells([2, 3] if tier == "quick" else [2, 3, 4, 5])
         a5, r5, m5 = literal_form_cells(widths)
-        acc, rej = acc + a2 + a3 + a4 + a5, rej + r2 + r3 + r4 + r5
-        merges = merge_cells([2, 3]) + m5
+        a6, r6 = array_whole_cells()
+        acc, rej = acc + a2 + a3 + a4 + a5 + a6, rej + r2 + r3 + r4 + r5 + r6
+        r7, m7 = merge3_cells([2] if tier == "quick" else [2, 3])
+        rej = rej + r7
+        merges = merge_cells([2, 3]) + m5 + m7
         # must-accept cells in batches per context
-        for ctx in ("concurrent", "clocked", "clocked2"):
+        for ctx in ("concurrent", "clocked", "clocked2", "clocked3"):
             group = [c for cx, c in acc if cx == ctx]
             for k in range(0, len(group), 40):
                 for res in run_cells(rep, wd, group[k:k + 40], ctx):
